@@ -1,13 +1,13 @@
-SPECIFICATION MSpec
-CONSTANTS Kind = "channel"
-          Init_ = "c"
+SPECIFICATION Spec2
+CONSTANTS KindA = "stream"
+          InitA = "c"
+          KindB = "rr"
+          InitB = "c"
           MaxElems = 1
           Credits = {1}
           MaxGrants = 1
           HasPub = FALSE
-          Slot = 0
-          SidOff = 0
-          LibSource = FALSE
+          LibSource = TRUE
 INVARIANT NoClauseFails
 INVARIANT DeliveredIsPrefixOfHanded
 INVARIANT FutureOnce
